@@ -1074,23 +1074,23 @@ class HtmlBlock(BlockToken):
         # rule 1: HTML tags designed to contain literal content, allow newlines in block
         match_obj = cls.multiblock.match(stripped)
         if match_obj is not None:
-            cls._end_cond = '</{}>'.format(match_obj.group(1).casefold())
+            cls._end_cond = ('</pre>', '</script>', '</style>', '</textarea>')
             return 1
         # rule 2: html comment tags, allow newlines in block
         if stripped.startswith('<!--'):
-            cls._end_cond = '-->'
+            cls._end_cond = ('-->',)
             return 2
         # rule 3: tags that starts with <?, allow newlines in block
         if stripped.startswith('<?'):
-            cls._end_cond = '?>'
+            cls._end_cond = ('?>',)
             return 3
         # rule 4: tags that starts with <!, allow newlines in block
         if stripped.startswith('<!') and stripped[2].isascii() and stripped[2].isalpha():
-            cls._end_cond = '>'
+            cls._end_cond = ('>',)
             return 4
         # rule 5: CDATA declaration, allow newlines in block
         if stripped.startswith('<![CDATA['):
-            cls._end_cond = ']]>'
+            cls._end_cond = (']]>',)
             return 5
         # rule 6: predefined tags (see html_token._tags), read until newline
         match_obj = cls.predefined.match(stripped)
@@ -1116,7 +1116,7 @@ class HtmlBlock(BlockToken):
         for line in lines:
             line_buffer.append(line)
             if cls._end_cond is not None:
-                if cls._end_cond in line.casefold():
+                if any(cond in line.casefold() for cond in cls._end_cond):
                     break
             elif line.strip() == '':
                 line_buffer.pop()
